@@ -168,8 +168,16 @@ impl<K> Policy<K> {
             return;
         }
 
-        let victim =
-            self.lru.peek_least_recent(lru::Region::Probation).unwrap();
+        // The probation region can be empty here: keys are parked in the
+        // pinned region while the main space is full, but `on_removed` can
+        // drain the probation region afterwards. With nobody to duel
+        // against, the main space has room (the protected region never
+        // exceeds its own capacity), so the key is simply re-admitted.
+        let Some(victim) = self.lru.peek_least_recent(lru::Region::Probation)
+        else {
+            self.lru.move_key_to_head_of_region(unpin, lru::Region::Probation);
+            return;
+        };
 
         let (pinned_frequency, victim_frequency) = {
             let pinned_hash = build_hash.hash_one(unpin);
